@@ -108,6 +108,9 @@ def run(ck, F):
     from rules import c02 as C02
     from rules import c04 as C04
     C02.rule_merge_keeps_components(C04._Sub(ck, "R2", lambda key: key.startswith(("merge-keeps:", "merge", "floor:")), only_rules=("R5",)), F)
+    # .. and exactly once: what both documents hold (the namespace of a schema that two files of the set import) is not listed twice
+    from rules import c10 as C10
+    C10.run(C04._Sub(ck, "R2", lambda key: key.startswith("merge-no-duplicates"), only_rules=("R4",)), F)
     parsers = [b for b in scans.bodies(F.lib) if "yaserde_tests" not in b["path"] and M.Body(b).calls_to(PARSE)]
     ck.floor("R1", "functions parsing a document", len(parsers), 1)
     if not heads:
@@ -207,7 +210,7 @@ def run(ck, F):
                     if "map" in o.fields() and _root_is_files(B, o):
                         n_acc += 1
                         d = M.Body.callee_decl(t) or ""
-                        if d.endswith(allowed) and "HashMap" in d:
+                        if d.endswith(allowed) and any(m_ in d for m_ in KEYED_MAPS):
                             ck.ok("R3", f"{d.rsplit('::', 1)[-1]}", B.term(bb).get("sp"), f"Files.map accessed by key ({d})", fn=b["path"])
                         else:
                             ok, why = C12.iteration_verdict(F, b["path"], t.get("cs") or t.get("sp"))
@@ -325,6 +328,9 @@ def _roots(B, operand):
     return out
 
 
+KEYED_MAPS = ("HashMap", "BTreeMap", "IndexMap")     # a lookup / insertion by key touches one entry, whatever the map
+
+
 def _file_name_sources(F, B, operand, ident):
     """(roots of the paths whose file_name() the operand is, ok): ok when every origin is `Path::file_name(p)` converted to text by
     name-keeping steps only (to_str directly, or through and_then / map with to_str or a closure that only calls such steps)."""
@@ -370,7 +376,7 @@ def rule_verbatim_keys(ck, F, rule):
             continue
         for bb, t in B.calls():
             d = M.Body.callee_decl(t) or ""
-            if not ("HashMap" in d and d.endswith(("::insert", "::from"))):
+            if not (any(m_ in d for m_ in KEYED_MAPS) and d.endswith(("::insert", "::from"))):
                 continue
             tgt = M.trace(B, t["args"][0], ()) if d.endswith("::insert") else []
             if d.endswith("::insert") and not any("map" in o.fields() for o in tgt):
